@@ -100,6 +100,28 @@ def run(ctx):
                         if b > 0.75 * a + incons + 5e-3:  # 5e-3: resolution of the (piecewise-linear) table itself
                             bad("the gap between flux-based and in-place recovery does not shrink under refinement", inp, dict(gaps=gaps, table_inconsistency=incons))
                             break
+    # ---------------- one table object used for a whole study (a DataFrame passed to FlowProperties again and again, as a
+    # p_i sweep or the fitting loop does): every construction must give what a fresh copy of the table gives
+    import pandas as pd
+    tbs = rescorr.synth_table("ideal", 200)
+    for container in ("DataFrame", "dict"):
+        obj = pd.DataFrame(tbs) if container == "DataFrame" else {k_: v_.copy() for k_, v_ in tbs.items()}
+        for j, ratio in enumerate((0.1, 0.5, 0.9)):
+            pi = float(tbs["pressure"][-2 - 10 * j])
+            t = np.linspace(0, np.sqrt(0.8), 74) ** 2
+            base_c = dict(kind="single", table=tbs, pi=pi, pf=pi * ratio, nx=20, times=t)
+            im_f = rescorr.run_impl(base_c)
+            im_o = rescorr.run_impl(dict(base_c, table_obj=obj))
+            ev += 2
+            inp = dict(table="ideal-gas (consistent)", container=container, construction_number=j + 1, p_frac_over_p_initial=ratio, nx=20)
+            if "rf" not in im_o or "rf" not in im_f:
+                bad("simulation fails", inp, im_o.get("error") or im_f.get("error"))
+                continue
+            if not (np.allclose(im_o["rf"], im_f["rf"], rtol=1e-12, atol=0) and np.allclose(im_o["rfd"], im_f["rfd"], rtol=1e-12, atol=0)):
+                gap = float(np.abs(im_o["rf"] - im_o["rfd"]).max() / max(abs(im_o["rfd"][-1]), 1e-12))
+                bad("recovery from a table object that was already used for an earlier construction differs from a fresh copy of the same table "
+                    "(flux-based and in-place recovery no longer describe the same quantity)", inp,
+                    dict(flux_final=float(im_o["rf"][-1]), flux_final_fresh=float(im_f["rf"][-1]), inplace_final=float(im_o["rfd"][-1]), gap=gap))
     # ---------------- ideal reservoir plateau: 1 - p_frac/p_initial
     for ratio in ((0.1, 0.9, 0.99875) if ctx.quick else (0.0125, 0.1, 0.5, 0.9, 0.99, 0.99875)):
         plat = []
